@@ -164,6 +164,10 @@ class Hub:
             en = sorted(en, key=lambda a: -a.seq)
         elif self.policy == "JOBS":
             en = sorted(en, key=lambda a: (0 if a.kind == "job" else 1, a.seq))
+        elif self.policy.startswith("P:"):
+            # priority by actor kind, e.g. "P:loop,thread,job,main,observer" starves the observers (late notifications)
+            rank = {k: i for i, k in enumerate(self.policy[2:].split(","))}
+            en = sorted(en, key=lambda a: (rank.get(a.kind, 99), a.seq))
         else:
             raise KeyError(self.policy)
         return en
